@@ -814,7 +814,7 @@ def c06(tier, seed):
 
 def unusable_files(rng, name, n, valid_text):
     kinds = ["random", "trunc", "mutate", "huge", "negative", "nofield", "extrafield", "otherversion", "comments", "empty", "dir",
-             "longline", "passing", "invalid", "onechar", "prefixversion", "spaces", "nohex", "randwords", "randwords", "extrafields"]
+             "longline", "passing", "invalid", "onechar", "prefixversion", "spaces", "nohex", "randwords", "randwords", "extrafields", "junktail", "junktail"]
     ver = rapid_version()
     files = []
     for j in range(n):
@@ -863,6 +863,9 @@ def unusable_files(rng, name, n, valid_text):
             f["text"] = failfile_text([rng.choice([0, 1, rng.randrange(1 << 64), (1 << 53) - 1, 1 << 52]) for _ in range(rng.randrange(0, 60))])
         elif k == "extrafields":
             f["text"] = "%s#1#%s\n0x%x\n0x%x\n0x%x\n" % (ver, rng.choice(["", "2", "extra#field"]), rng.randrange(1 << 64), rng.randrange(1 << 64), rng.randrange(1 << 64))
+        elif k == "junktail":   # a complete (failing) test case followed by a line that is not a number: the file as a whole is malformed
+            f["text"] = valid_text.rstrip("\n") + "\n" + rng.choice(["-1", "0xZZ", "<<<<<<< HEAD", "18446744073709551616", "1e3", "0x", "0x1 0x2", "+"]) + \
+                rng.choice(["", "\n", "\n0x0\n"])
         elif k == "nohex":
             f["text"] = "%s#7\n12\n0b11\n0o7\n077\n" % ver
         files.append(f)
